@@ -375,19 +375,29 @@ func runC13(ctx *core.Ctx) {
 			ctx.Bad("T7", "cache.used#chtimes", used.Pos(), "used() does not Chtimes its argument exactly once")
 		} else {
 			bad := ""
-			exits := ug.MustPass(ssax.Point{Block: 0}, func(i ssa.Instruction) bool { return i == ssa.Instruction(ch[0]) }, false)
-			for _, e := range exits {
-				facts := ug.FactsAtInstr(e.Last)
-				var stat *ssa.Call
-				for _, s := range ug.Calls("os.Stat") {
-					stat = s
+			var stat *ssa.Call
+			for _, s := range ug.Calls("os.Stat") {
+				stat = s
+			}
+			chBlock := ch[0].Block().Index
+			via := func(b int) bool { return b == chBlock }
+			isAge := func(v ssa.Value) bool {
+				c, ok := v.(*ssa.Call)
+				return ok && ssax.CalleeName(&c.Call) == "(time.Time).Sub"
+			}
+			for _, r := range ug.Returns() {
+				if r.Block().Index == chBlock {
+					continue
 				}
-				fresh := stat != nil && ssax.KnownNil(facts, ssax.Extracted(stat, 1), true) && cmpFact(facts, token.LSS, func(v ssa.Value) bool {
-					c, ok := v.(*ssa.Call)
-					return ok && ssax.CalleeName(&c.Call) == "(time.Time).Sub"
-				}, isConstIntV(mtimeInterval))
-				if !fresh {
-					bad = "return without Chtimes on path " + ssax.TrailString(e.Trail) + " not guarded by (Stat ok and age < mtimeInterval)"
+				// every path to this return runs through the Chtimes block or establishes both facts
+				statOK := stat != nil && onAllPathsVia(ug, r, nil, func(f ssax.Fact) bool {
+					return ssax.KnownNil([]ssax.Fact{f}, ssax.Extracted(stat, 1), true)
+				}, via)
+				ageOK := onAllPathsVia(ug, r, nil, func(f ssax.Fact) bool {
+					return cmpFact([]ssax.Fact{f}, token.LSS, isAge, isConstIntV(mtimeInterval))
+				}, via)
+				if !statOK || !ageOK {
+					bad = "a return is reachable without Chtimes on a path not guarded by (Stat ok: " + boolStr(statOK) + ", age < mtimeInterval: " + boolStr(ageOK) + ")"
 				}
 			}
 			ctx.Check(bad == "", "T7", "cache.used#skip-only-when-fresh", ch[0].Pos(), "mtime update skipped only when Stat succeeded and the age is below mtimeInterval %s", bad)
